@@ -312,7 +312,8 @@ class WorldGen:
             for _ in range(rng.randint(1, 2)):
                 key = rng.choice(srcs)
                 if rng.random() < 0.5:
-                    deps[key] = [rng.choice(srcs + PROP_NAMES[:3])]
+                    pool = srcs + PROP_NAMES[:3]
+                    deps[key] = [rng.choice(pool) for _ in range(rng.choice([1, 2, 2, 3]))]
                 else:
                     deps[key] = self.element(depth + 1)
             kw["dependencies"] = deps
@@ -733,8 +734,24 @@ def mutate(rng, value, depth=0):
     return rng.choice([0, "", [], {}])
 
 
+def _bool_containers(rng):
+    """Lists of small containers whose members differ only as bool vs number -
+    the corner every `uniqueItems`/`enum`/`const` comparison has to get right."""
+    return rng.choice(
+        [
+            [[True], [1]],
+            [[False], [0], [0.0]],
+            [{"flag": False}, {"flag": 0}],
+            [{"a": [True]}, {"a": [1]}, {"a": [True]}],
+            [[1, [True]], [1, [1]]],
+        ]
+    )
+
+
 def gen_value(rng, el):
     """A value aimed at `el`: instance, near miss, or plain JSON."""
+    if getattr(el, "uniqueItems", False) is True and rng.random() < 0.3:
+        return copy.deepcopy(_bool_containers(rng))
     roll = rng.random()
     if roll < 0.5:
         return instance(rng, el)
